@@ -70,6 +70,7 @@ func LockBalance() int64                { return 0 }
 func SetVirtual(on bool)                {}
 func VNow() int64                       { return time.Now().UnixNano() }
 func SetVNow(t int64)                   {}
+func SetAutoTick(d int64)               {}
 func AdvanceQuiet(d time.Duration)      {}
 func Advance(d time.Duration)           {}
 func Tickers() []*FakeTicker            { return nil }
